@@ -447,3 +447,32 @@ def t_h5(a):
 
 def t_h6(a):
     return _Holder(a).double
+
+
+import heapq
+
+
+def t_heap(a, b):
+    h = [(2, a), (1, b), (3, a)]
+    heapq.heapify(h)
+    first = heapq.heappop(h)
+    heapq.heappush(h, (0, b))
+    return first, heapq.heappop(h), len(h)
+
+
+def t_sorted_indices(a, b):
+    vals = [3, 1, 2]
+    order = sorted(range(len(vals)), key=vals.__getitem__)
+    return order, [vals[i] for i in order]
+
+
+def t_dict_accumulate(a, b):
+    acc = {}
+    for k, v in (("x", a), ("y", b), ("x", b)):
+        acc[k] = acc.get(k, 0) + v
+    return sorted(acc.items())
+
+
+def t_divmod_variants(a, b):
+    q, r = a // b, a % b
+    return q, r, -(-a // b)
